@@ -138,6 +138,7 @@ void World::exec_op(const Op &op) {
 		while (!q.empty()) q.pop();
 		return;
 	}
+	if (k == "closeeintr") { g_kernel.close_eintr += (int)op.a.geti("n", 1); probe("fault:close_interrupted"); return; }
 	if (k == "timerfail") { g_kernel.timerfd_create_errs.push_back((int)op.a.geti("errno", EMFILE)); return; }
 	if (k == "epolladdfail") { for (int i = 0; i < (int)op.a.geti("skip", 0); i++) g_kernel.epoll_add_errs.push_back(0); g_kernel.epoll_add_errs.push_back((int)op.a.geti("errno", ENOSPC)); return; }
 	if (k == "advance") return;
